@@ -422,6 +422,10 @@ impl Drop for LibCall {
 #[inline]
 pub fn in_lib<R>(f: impl FnOnce() -> R) -> R {
     let _g = lib_enter();
+    // the frames the library is about to use hold a fixed pattern, not leftovers of the harness (which
+    // contain ASLR-dependent pointers): a library bug that reads an uninitialised stack slot then behaves
+    // the same in a batch and in a replay
+    crate::ctx::scrub_stack();
     f()
 }
 
